@@ -594,9 +594,14 @@ func init() {
 							allFresh = false
 							continue
 						}
-						if id, ok := ast.Unparen(ce.Fun).(*ast.Ident); !ok || id.Name != "make" {
-							allFresh = false
+						// make(...) or maps.Clone(...): a table of its own either way
+						if id, ok := ast.Unparen(ce.Fun).(*ast.Ident); ok && id.Name == "make" {
+							continue
 						}
+						if stdFuncCalled(info, ce, "maps", "Clone") {
+							continue
+						}
+						allFresh = false
 					}
 					if allFresh {
 						obs = append(obs, mkOb(c, "MAP.backing-fresh", u, construct, cl, Proved, "both tables are made fresh", false))
@@ -620,6 +625,9 @@ func init() {
 						isMake := false
 						if ce, ok := ast.Unparen(w.RHS).(*ast.CallExpr); ok {
 							if id, ok := ast.Unparen(ce.Fun).(*ast.Ident); ok && id.Name == "make" {
+								isMake = true
+							}
+							if stdFuncCalled(w.Unit.Pkg.TypesInfo, ce, "maps", "Clone") {
 								isMake = true
 							}
 						}
